@@ -69,11 +69,10 @@ def accMant : List Char → Bool → Bool → List Char × List Char
 
 def natOfDigits (ds : List Char) : Nat := evalDigits (ds.map digitVal)
 
-/-- `is >> d` (double) on the pending token -/
-def scanDQ (t : Tok) : Option (Rat × Tok) :=
-  let (neg, body) := splitSign t
-  let (acc, rest) := accMant body false false
-  -- split the accumulated text: mantissa [e exponent]
+/-- `strtod` on the accumulated text (sign already removed): the text must be a complete decimal literal
+    `digits [. digits] [e [sign] digits]` with a digit in the mantissa and, if `e` is present, in the exponent;
+    the value is rounded to the nearest double; `none` = failbit (malformed, or overflow to HUGE_VAL) -/
+def floatValue (acc : List Char) : Option Rat :=
   let (mant, ex) := spanP (fun c => c != 'e') acc
   let (ip, fp0) := spanP isDig mant
   let fp := match fp0 with | '.' :: r => r | _ => []
@@ -87,15 +86,20 @@ def scanDQ (t : Tok) : Option (Rat × Tok) :=
   | none => none
   | some x =>
     let mnat := natOfDigits (ip ++ fp)
-    if mnat == 0 then some (0, rest) else
+    if mnat == 0 then some 0 else
     let x10 : Int := x - (fp.length : Int)
     -- keep the exact arithmetic small: far outside the double range the answer is known
     if x10 > 400 then none
-    else if x10 + ((ip ++ fp).length : Int) < -400 then some (0, rest)
-    else
-      match toDouble ((mnat : Rat) * pow10Q x10) with
-      | none => none
-      | some v => some (if neg then -v else v, rest)
+    else if x10 + ((ip ++ fp).length : Int) < -400 then some 0
+    else toDouble ((mnat : Rat) * pow10Q x10)
+
+/-- `is >> d` (double) on the pending token: lex (sign, accumulated characters, unread rest), then evaluate -/
+def scanDQ (t : Tok) : Option (Rat × Tok) :=
+  let nb := splitSign t
+  let ar := accMant nb.2 false false
+  match floatValue ar.1 with
+  | none => none
+  | some v => some (if nb.1 then -v else v, ar.2)
 
 /-- ⌊log10 a⌋ for a > 0, by bounded search from 0 -/
 def floorLog10 (a : Rat) : Int :=
